@@ -53,11 +53,11 @@ var Profiles = map[string]*Profile{
 	"C02":   {Name: "C02", MaxOps: 25, UniqueMax: 1, IndexPct: 45, CasePct: 10, W: map[string]int{"sweep": 18, "sdel": 10, "reads": 2}},
 	"C03":   {Name: "C03", MaxOps: 30, UniqueMin: 1, UniqueMax: 3, IndexPct: 10, CasePct: 25, W: map[string]int{"update": 40, "del": 14, "reopen": 8, "sweep": 2, "many": 8}},
 	"C04":   {Name: "C04", MaxOps: 25, UniqueMax: 2, IndexPct: 40, CasePct: 15, W: map[string]int{"reopen": 16, "abandon": 8}},
-	"C05":   {Name: "C05", MaxOps: 12, ForceSync: true, UniqueMax: 1, IndexPct: 25, CasePct: 10, W: map[string]int{"update": 35, "del": 12, "many": 8, "bulk": 4, "reopen": 2, "abandon": 0, "sweep": 1, "reads": 1, "create": 1, "sdel": 4}},
-	"C05A":  {Name: "C05A", MaxOps: 12, ForceAsync: true, UniqueMax: 1, IndexPct: 25, CasePct: 10, W: map[string]int{"update": 35, "del": 12, "many": 6, "bulk": 3, "reopen": 2, "sweep": 1, "reads": 1, "create": 2, "sdel": 4, "sleep": 14, "await": 6, "flush": 8, "small": 2}},
+	"C05":   {Name: "C05", MaxOps: 12, ForceSync: true, UniqueMax: 1, IndexPct: 25, CasePct: 10, W: map[string]int{"update": 35, "del": 12, "many": 8, "bulk": 4, "reopen": 2, "abandon": 0, "sweep": 1, "reads": 1, "create": 1, "sdel": 4, "drop": 0}},
+	"C05A":  {Name: "C05A", MaxOps: 12, ForceAsync: true, UniqueMax: 1, IndexPct: 25, CasePct: 10, W: map[string]int{"update": 35, "del": 12, "many": 6, "bulk": 3, "reopen": 2, "sweep": 1, "reads": 1, "create": 2, "sdel": 4, "sleep": 14, "await": 6, "flush": 8, "small": 2, "drop": 0}},
 	"C06":   {Name: "C06", MaxOps: 25, UniqueMin: 1, UniqueMax: 2, IndexPct: 25, CasePct: 15, W: map[string]int{"update": 35}},
-	"C06F":  {Name: "C06F", MaxOps: 10, ForceSync: true, UniqueMax: 1, IndexPct: 25, CasePct: 10, W: map[string]int{"update": 35, "del": 12, "many": 8, "bulk": 4, "reopen": 1, "abandon": 0, "sweep": 1, "reads": 1, "create": 1, "sdel": 0}},
-	"C06FA": {Name: "C06FA", MaxOps: 10, ForceAsync: true, UniqueMax: 1, IndexPct: 25, CasePct: 10, W: map[string]int{"update": 35, "del": 12, "many": 8, "bulk": 4, "reopen": 1, "abandon": 0, "sweep": 1, "reads": 1, "create": 0, "sdel": 0, "sleep": 4, "await": 0, "flush": 4, "small": 1}},
+	"C06F":  {Name: "C06F", MaxOps: 10, ForceSync: true, UniqueMax: 1, IndexPct: 25, CasePct: 10, W: map[string]int{"update": 35, "del": 12, "many": 8, "bulk": 4, "reopen": 1, "abandon": 0, "sweep": 1, "reads": 1, "create": 1, "sdel": 0, "drop": 0}},
+	"C06FA": {Name: "C06FA", MaxOps: 10, ForceAsync: true, UniqueMax: 1, IndexPct: 25, CasePct: 10, W: map[string]int{"update": 35, "del": 12, "many": 8, "bulk": 4, "reopen": 1, "abandon": 0, "sweep": 1, "reads": 1, "create": 0, "sdel": 0, "sleep": 4, "await": 0, "flush": 4, "small": 1, "drop": 0}},
 	"C07":   {Name: "C07", MaxOps: 20, UniqueMin: 0, UniqueMax: 2, IndexPct: 20, CasePct: 15, W: map[string]int{"many": 35, "bulk": 25, "save": 15, "update": 10}},
 	"C08":   {Name: "C08", MaxOps: 8, UniqueMax: 1, IndexPct: 15, CasePct: 10},
 	"C10": {Name: "C10", MaxOps: 25, ForceAsync: true, AsyncOracles: true, UniqueMax: 1, IndexPct: 20, CasePct: 10,
